@@ -141,7 +141,9 @@ func replaceIdent(s, name, with string) string {
 	if name == "" || !strings.Contains(s, name) {
 		return s
 	}
-	isId := func(b byte) bool { return b == '_' || b == '$' || (b >= '0' && b <= '9') || (b >= 'a' && b <= 'z') || (b >= 'A' && b <= 'Z') }
+	isId := func(b byte) bool {
+		return b == '_' || b == '$' || (b >= '0' && b <= '9') || (b >= 'a' && b <= 'z') || (b >= 'A' && b <= 'Z')
+	}
 	var sb strings.Builder
 	for i := 0; i < len(s); {
 		if strings.HasPrefix(s[i:], name) && (i == 0 || (!isId(s[i-1]) && s[i-1] != '.')) && (i+len(name) == len(s) || !isId(s[i+len(name)])) {
